@@ -91,7 +91,17 @@ func ruleC14(c *Ctx) {
 				continue
 			}
 			buf := stripIface(nws[0].Args[0])
-			_, bufFresh := buf.(*AllocV)
+			// a buffer created by this call and untouched so far: a local, or a field of a local helper struct
+			bufFresh, _ := zeroStateAt(t, buf, -1, nws[0].Seq)
+			for _, e := range t.St.events {
+				if e.Kind == EvCall && e.Seq < nws[0].Seq {
+					for _, a := range e.Args {
+						if a != nil && stripIface(a).Key() == buf.Key() {
+							bufFresh = false // already handed to somebody before the writer was created
+						}
+					}
+				}
+			}
 			fw := nws[0].Res[0]
 			wrs := findCall(t, "(*compress/flate.Writer).Write")
 			// io.WriteString(w, s) is w.Write([]byte(s)) for a writer without WriteString (flate.Writer has none)
